@@ -20,6 +20,7 @@ RULE = (
     "targets carrying the marker equals the reference evaluation of the conditions on the source document and the model of "
     "'applied so far'. non-trivial = item with >= 1 condition."
 )
+RULE += (" " + 'Further sub-spaces: X - two or three condition groups of one item carry the same expression text bound to different conditions; G - a preceding hashes_fields item replaces a detection item by a group of new items (applied-conditions on the new items); K - rule conditions on correlation rules of depth <= 3 (log source of any transitively referenced rule). The probe rule contains a case-sensitive item and a keyword item; field-name patterns that match the empty string are in the pool.')
 ASSUMPTIONS = ["reference meaning of every pool condition, linking, negation, expression and of the three preceding items in this module",
                "marker(target) <=> rule group AND detection-item group (of the containing item) AND field-name group (of that name)"]
 BOUNDS = {"quick": dict(expr_ops=2, pre=2), "thorough": dict(expr_ops=3, pre=2)}
